@@ -234,6 +234,7 @@ theorem decode_of {b : Bytes} {d : Dump} (hd : readDump b = .ok d)
     {t : Except Err (List Thread)} {mo : Except Err (List Module)} {m5 m9 : Except Err (List Region)}
     {mi : Except Err (List MemInfo)} {tn : Except Err (List (Nat × List Nat))} {un : Except Err (List UnloadedModule)}
     {x : Except Err Exception} {sy : Except Err RSysInfo} {mc : Except Err MiscInfo} {hn : Except Err (List Handle)}
+    {lm : Except Err (List MapEntry)}
     (h1 : streamRes d b ST_THREAD_LIST (fun s => readThreadList MemSizes.default s b d.endian) = .ok t)
     (h2 : streamRes d b ST_MODULE_LIST (fun s => readModuleList MemSizes.default s b d.endian) = .ok mo)
     (h3 : streamRes d b ST_MEMORY_LIST (fun s => readMemoryList MemSizes.default s b d.endian) = .ok m5)
@@ -244,7 +245,8 @@ theorem decode_of {b : Bytes} {d : Dump} (hd : readDump b = .ok d)
     (h8 : streamRes d b ST_EXCEPTION (fun s => readException s b d.endian) = .ok x)
     (h9 : streamRes d b ST_SYSTEM_INFO (fun s => readSystemInfo s b d.endian) = .ok sy)
     (h10 : streamRes d b ST_MISC_INFO (fun s => readMiscInfo s d.endian) = .ok mc)
-    (h11 : streamRes d b ST_HANDLE_DATA_STREAM (fun s => readHandleData MemSizes.default s b d.endian) = .ok hn) :
+    (h11 : streamRes d b ST_HANDLE_DATA_STREAM (fun s => readHandleData MemSizes.default s b d.endian) = .ok hn)
+    (h12 : streamRes d b ST_LINUX_MAPS (fun s => readLinuxMaps s) = .ok lm) :
     decode b = .ok
       { endian := d.endian, flags := d.header.flags,
         threads := t.map (fun l => l.map (rthreadOf b)),
@@ -256,8 +258,9 @@ theorem decode_of {b : Bytes} {d : Dump} (hd : readDump b = .ok d)
         exception := x.map (rexceptionOf b),
         sysInfo := sy,
         miscInfo := mc,
-        handles := hn.map (fun l => l.map rhandleOf) } := by
-  simp only [decode, hd, h1, h2, h3, h4, h5, h6, h7, h8, h9, h10, h11, Res.bind]
+        handles := hn.map (fun l => l.map rhandleOf),
+        linuxMaps := lm } := by
+  simp only [decode, hd, h1, h2, h3, h4, h5, h6, h7, h8, h9, h10, h11, h12, Res.bind]
 
 /-- **C02.3 `decode_encode`** — for every well-formed model (lists of any length, any field values
     that fit the wire widths, names/CSD strings of arbitrary Unicode scalar values, all four
@@ -274,7 +277,9 @@ theorem decode_of {b : Bytes} {d : Dump} (hd : readDump b = .ok d)
     scalar of that revision, flag-guarded or not; `StreamNotFound` when the model has none) and the
     HANDLE DATA stream (descriptors of either kind in file order: all scalar fields, the two
     optional names, and — second kind — the object-information chain; `StreamNotFound` when the
-    model has none). -/
+    model has none) and the LINUX MAPS text stream (every entry in file order: both addresses,
+    the permission bits, offset, device numbers, inode and the path column in each of its
+    spellings; `StreamNotFound` when the model has none). -/
 theorem decode_encode {m : DumpModel} {f : MemForm} (wf : WellFormed m f) (e : Endian) :
     decode (encode m e f) = .ok (report m e f) := by
   have hd := readDump_encode wf e
@@ -382,6 +387,18 @@ theorem decode_encode {m : DumpModel} {f : MemForm} (wf : WellFormed m f) (e : E
       refine ⟨_, streamRes_ok (getRawStream_encode wf e ST_HANDLE_DATA_STREAM _ (core_handles m e f hs) d rfl) hr1, ?_⟩
       simp [report, hs, Except.map, hr2]
   obtain ⟨hnr, h11, hn2⟩ := h11
+  -- Linux maps
+  have h12 : streamRes d (encode m e f) ST_LINUX_MAPS (fun s => readLinuxMaps s) = .ok (report m e f).linuxMaps := by
+    cases hs : m.linuxMaps with
+    | none =>
+      have := streamRes_notFound (d := d) (reader := fun s => readLinuxMaps s)
+        (getRawStream_encode_none wf e ST_LINUX_MAPS (no_linuxMaps m f hs) d rfl)
+      simpa [report, hs] using this
+    | some x =>
+      have hr := readLinuxMaps_enc (s := (encLinuxMaps x).toArray) (xs := x) (by simp) (wf.linuxMaps x hs)
+      have := streamRes_ok (d := d) (reader := fun s => readLinuxMaps s)
+        (getRawStream_encode wf e ST_LINUX_MAPS _ (core_linuxMaps m e f hs) d rfl) hr
+      simpa [report, hs] using this
   -- memory, by form
   cases f with
   | mem =>
@@ -393,7 +410,7 @@ theorem decode_encode {m : DumpModel} {f : MemForm} (wf : WellFormed m f) (e : E
       (getRawStream_encode wf e ST_MEMORY_LIST _ (core_memory m e) d rfl) hr1
     have h4 := streamRes_notFound (d := d) (reader := fun s => readMemory64List MemSizes.default s (encode m e .mem) e)
       (getRawStream_encode_none wf e ST_MEMORY64_LIST (no_memory64_in_mem m) d rfl)
-    rw [decode_of hd h1 h2 h3 h4 h5 h6 h7 h8 h9 h10 h11]
+    rw [decode_of hd h1 h2 h3 h4 h5 h6 h7 h8 h9 h10 h11 h12]
     simp only [hx2, hn2]
     simp only [Except.map, pickMemory, ht2, hm2, hr2, hi2, hu2]
     simp [report, hnobad, encHeaderVal]
@@ -406,7 +423,7 @@ theorem decode_encode {m : DumpModel} {f : MemForm} (wf : WellFormed m f) (e : E
       (getRawStream_encode wf e ST_MEMORY64_LIST _ (core_memory64 m e) d rfl) hr1
     have h3 := streamRes_notFound (d := d) (reader := fun s => readMemoryList MemSizes.default s (encode m e .mem64) e)
       (getRawStream_encode_none wf e ST_MEMORY_LIST (no_memory_in_mem64 m) d rfl)
-    rw [decode_of hd h1 h2 h3 h4 h5 h6 h7 h8 h9 h10 h11]
+    rw [decode_of hd h1 h2 h3 h4 h5 h6 h7 h8 h9 h10 h11 h12]
     simp only [hx2, hn2]
     simp only [Except.map, pickMemory, ht2, hm2, hr2, hi2, hu2]
     simp [report, hnobad, encHeaderVal]
@@ -432,7 +449,13 @@ def exampleModel : DumpModel :=
     extra := [(3, [0, 0])],
     miscInfo := some ⟨2, [44, 7, 1234, 1, 2, 3, 3000, 2000, 3000, 1, 2], [0xee, 0xff]⟩,
     handles := some ⟨true, [⟨0x44, some [0x46, 0x69, 0x6c, 0x65], none, 1, 2, 3, 4, [⟨1, 8⟩, ⟨9, 0⟩]⟩,
-                            ⟨0x48, none, some [0x1F600], 0, 0, 0, 0, []⟩]⟩ }
+                            ⟨0x48, none, some [0x1F600], 0, 0, 0, 0, []⟩]⟩,
+    linuxMaps := some [⟨0x400000, 0x40b000, 21, 0, 8, 1, 1234, .path [0x2f, 0x62, 0x69, 0x6e, 0x2f, 0xce, 0xba, 0x61]⟩,
+                       ⟨0x7ffd0000, 0x7ffd1000, 19, 0, 0, 0, 0, .stack⟩,
+                       ⟨0x7f000000, 0x7f001000, 3, 0, 0, 0, 0, .tstack 77⟩,
+                       ⟨0x1000, 0x2000, 11, 4096, 0, 5, 42, .vsys 0xaabbccdd⟩,
+                       ⟨0x3000, 0x2000, 0, 0, 0, 0, 0, .other [0x61, 0x6e, 0x6f, 0x6e]⟩,
+                       ⟨0, 0xffffffffffffffff, 16, 0, 0, 0, 0, .anonymous⟩] }
 
 theorem validName_of_all (cs : List Nat) (h : cs.all (fun c => decide (c < 0xD800 ∨ (0xE000 ≤ c ∧ c < 0x110000))) = true) :
     ValidName cs := by
@@ -442,7 +465,7 @@ theorem validName_of_all (cs : List Nat) (h : cs.all (fun c => decide (c < 0xD80
 
 example : WellFormed exampleModel .mem ∧ WellFormed exampleModel .mem64 := by
   constructor <;>
-  · refine ⟨by decide, by decide, ?_, ?_, ?_, ?_, ?_, ?_, ?_, ?_, ?_, ?_, ?_⟩
+  · refine ⟨by decide, by decide +kernel, ?_, ?_, ?_, ?_, ?_, ?_, ?_, ?_, ?_, ?_, ?_, ?_⟩
     · intro t ht
       simp only [exampleModel, List.mem_singleton] at ht
       subst ht
@@ -493,6 +516,21 @@ example : WellFormed exampleModel .mem ∧ WellFormed exampleModel .mem64 := by
       · refine ⟨by decide, by decide, by decide, by decide, by decide, trivial, validName_of_all _ (by decide), ?_⟩
         intro i hi
         simp at hi
+    · intro x hx en hen
+      simp only [exampleModel, Option.some.injEq] at hx
+      subst hx
+      simp only [List.mem_cons, List.not_mem_nil, or_false] at hen
+      rcases hen with rfl | rfl | rfl | rfl | rfl | rfl
+      · refine ⟨by decide, by decide, by decide, by decide, by decide, by decide, by decide, ?_, by decide, by decide⟩
+        refine ⟨by decide, .inr ⟨⟨0x2f, rfl, by decide⟩, ⟨0x61, rfl, by decide⟩⟩, by decide, by decide, by decide, by decide⟩
+      · exact ⟨by decide, by decide, by decide, by decide, by decide, by decide, by decide, trivial, by decide, by decide⟩
+      · exact ⟨by decide, by decide, by decide, by decide, by decide, by decide, by decide,
+          (by show (77 : Nat) < 2 ^ 32; decide), by decide, by decide⟩
+      · exact ⟨by decide, by decide, by decide, by decide, by decide, by decide, by decide,
+          (by show (0xaabbccdd : Nat) < 2 ^ 32; decide), by decide, by decide⟩
+      · exact ⟨by decide, by decide, by decide, by decide, by decide, by decide, by decide, ⟨by decide, by decide⟩,
+          by decide, by decide⟩
+      · exact ⟨by decide, by decide, by decide, by decide, by decide, by decide, by decide, trivial, by decide, by decide⟩
     · intro x hx
       simp only [exampleModel, List.mem_singleton] at hx
       subst hx
